@@ -4,7 +4,7 @@ start-tag mutations and the deferred end-tag mutations.
 -/
 import LolHtml.Model.TokenEdit
 
-namespace LolHtml.Model
+namespace LolHtml.EditModel
 
 /-- The closure built by `Element::into_end_tag_handler` (element.rs:697-729), combined with the
 user's `on_end_tag` handlers (`H::combine_handlers`): first the internal handler (rename, install the
@@ -170,4 +170,4 @@ def Element.intoEndTagHandler (e : Element) : Option EndTagHandler :=
            user := e.endTagHandlers }
   else none
 
-end LolHtml.Model
+end LolHtml.EditModel
